@@ -12,10 +12,17 @@ Proof. intros H1 H2. apply (nth_ext l1 l2 0 0 H1 H2). Qed.
 (* reduce specification terms (index computations, sums, storage maps) but leave real arithmetic alone *)
 Ltac spec_red := lazy -[Rplus Rmult Rminus Ropp Rdiv Rinv IZR sqrt].
 Ltac spec_red_in H := lazy -[Rplus Rmult Rminus Ropp Rdiv Rinv IZR sqrt not] in H.
+(* the Mandel weight 1/sqrt 2 is written sqrt 2 / 2: an atom for nsatz, which needs its square *)
+Lemma hsqrt2_sq : (sqrt 2 / 2) * (sqrt 2 / 2) * 2 = 1.
+Proof. replace (sqrt 2 / 2 * (sqrt 2 / 2) * 2) with (sqrt 2 * sqrt 2 / 2) by field. rewrite sqrt2_sq. field. Qed.
+Lemma hsqrt2_def : sqrt 2 / 2 * 2 = sqrt 2.
+Proof. field. Qed.
 Ltac nonzero :=
   repeat split;
   first [ apply sqrt2_neq0 | apply sqrt3_neq0 | assumption | lra
-        | match goal with H : _ <> 0 |- _ <> 0 => let E := fresh in intro E; apply H; first [ timeout 600 nsatz_tac | generalize sqrt2_sq; intro; timeout 1200 nsatz_tac ] end ].
+        | match goal with H : _ <> 0 |- _ <> 0 => let E := fresh in intro E; apply H; first [ solve [timeout 600 nsatz_tac] | solve [generalize sqrt2_sq; intro; timeout 1200 nsatz_tac]
+                      | solve [generalize hsqrt2_sq; intro; timeout 1200 nsatz_tac]
+                      | solve [generalize hsqrt2_def; generalize sqrt2_sq; intros; timeout 1200 nsatz_tac] ] end ].
 (* the single closing tactic: identities of rational functions over Q[sqrt 2, sqrt 3], whatever their shape.
    Coq's `timeout` counts wall-clock seconds: the limits only stop a runaway search and are an order of magnitude
    above the CPU time of the slowest obligation (a few seconds), because the machine may be heavily shared *)
